@@ -51,6 +51,25 @@ def build(n, targets, pv, kwargs_on=None, kwargs_val=None, attr=None):
     return nodes
 
 
+def assign(obj, attr, value):
+    """obj.<attr> = value as a plain assignment statement (CrossHair runs the builtin setattr() un-traced, which
+    breaks when a user-defined __setattr__ inspects a symbolic value)"""
+    if attr == "foo":
+        obj.foo = value
+    elif attr == "name":
+        obj.name = value
+    elif attr == "x1":
+        obj.x1 = value
+    elif attr == "_p":
+        obj._p = value
+    elif attr == "__tag__":
+        obj.__tag__ = value
+    elif attr == "lst":
+        obj.lst = value
+    else:
+        raise ValueError(attr)
+
+
 def same(a, b):
     return a is b or (type(a) is type(b) and a == b)
 
@@ -104,7 +123,7 @@ def forward_body(cfg):
         return dict(info, phase="after construction", **r)
     for w in range(n):
         v = nondet_sym(int, "v%d" % w)
-        setattr(nodes[w], attr, v)
+        assign(nodes[w], attr, v)
         store[final_target(targets, w)][attr] = v
         r = check_reads(nodes, targets, store, ATTRS)
         if r:
@@ -118,9 +137,9 @@ def forward_body(cfg):
     for w in range(n):
         ft = final_target(targets, w)
         first = ["v", w]
-        setattr(nodes[ft], "lst", first)
+        assign(nodes[ft], "lst", first)
         second = ["v", w]
-        setattr(nodes[w], "lst", second)
+        assign(nodes[w], "lst", second)
         if getattr(nodes[ft], "lst", None) is not second:
             return dict(info, why="assignment of an equal but distinct object through node %d was dropped" % w)
     if real_map(nodes) != (parent, children):
